@@ -180,7 +180,8 @@ func (f *Filter) FilterRequest(
 	item, ok := f.itemFromCache(ctx, cacheKey, host)
 	f.updateCacheLookupsMetrics(ok)
 	if ok {
-		return f.clonedResult(req.DNS, item.res), nil
+		// Don't wrap the error, because it's informative enough as is.
+		return f.resultFromItem(req, item)
 	}
 
 	fam, ok := isFilterable(qt)
@@ -262,19 +263,29 @@ func isFilterable(qt dnsmsg.RRType) (fam netutil.AddrFamily, ok bool) {
 	return fam, fam != netutil.AddrFamilyNone
 }
 
-// clonedResult returns a clone of the result based on its type.  r must be nil,
-// [*internal.ResultModifiedRequest], or [*internal.ResultModifiedResponse].
-func (f *Filter) clonedResult(req *dns.Msg, r internal.Result) (clone internal.Result) {
-	switch r := r.(type) {
-	case nil:
-		return nil
-	case *internal.ResultModifiedRequest:
-		return r.Clone(f.cloner)
-	case *internal.ResultModifiedResponse:
-		return r.CloneForReq(f.cloner, req)
-	default:
-		panic(fmt.Errorf("hashprefix: unexpected type for result: %T(%[1]v)", r))
+// resultFromItem returns the result for req based on a cached item.  The
+// result is built anew from the matched rule using the data of req, since the
+// message in the cached result has been built for another request, which may
+// have had other EDNS parameters, and with the message constructor of its
+// requester, which may have another blocking mode and TTL.
+func (f *Filter) resultFromItem(
+	req *internal.Request,
+	item *cacheItem,
+) (r internal.Result, err error) {
+	if item.res == nil {
+		return nil, nil
 	}
+
+	fam, ok := isFilterable(req.QType)
+	if !ok {
+		// Shouldn't happen, since only the results for filterable types are
+		// cached.
+		return nil, nil
+	}
+
+	_, matched := item.res.MatchedRule()
+
+	return f.filteredResult(req, string(matched), fam)
 }
 
 // filteredResult returns a filtered request or response.
